@@ -1,5 +1,6 @@
 import AwsVerif.Gen.Math
 import AwsVerif.Model.MathAsm
+import AwsVerif.Proofs.C16.Bits
 /-!
 # C16 — overflow-checked arithmetic and time-unit conversion are exact or flagged
 
@@ -388,5 +389,305 @@ example : Clock.aws_timestamp_convert_u64 (2^64 - 1) 1 1000000000 true = some (2
 /-! non-vacuity: the hypotheses are met at interesting operands -/
 example : Fallback.aws_mul_u64_checked (2^32) (2^32) = .err 5 ∧ Fallback.aws_mul_u64_checked (2^32) (2^32 - 1) = .ok (2^64 - 2^32) := by decide
 example : MathInl.aws_min_i8 255 1 = 255 ∧ sval 8 255 = -1 := by decide
+
+/-! ## power-of-two test (math.inl) — for every 64-bit `x`
+
+helper lemmas for this and the following sections: `AwsVerif/Proofs/C16/Bits.lean` -/
+
+open AwsVerif.Proofs.C16 in
+theorem c16_is_power_of_two (x : Nat) (hx : x < 2^64) :
+    MathInl.aws_is_power_of_two x = true ↔ ∃ k, x = 2^k := by
+  unfold MathInl.aws_is_power_of_two
+  by_cases hx0 : x = 0
+  · subst hx0
+    have : ¬ ∃ k, 0 = 2^k := by
+      rintro ⟨k, hk⟩; have := Nat.two_pow_pos k; omega
+    simp [this]
+  · have hm : (x + 18446744073709551616 - 1) % 18446744073709551616 = x - 1 := by omega
+    rw [hm, ← Bits.and_pred_eq_zero_iff hx0]
+    by_cases h : x &&& (x - 1) = 0 <;> simp [hx0, h]
+
+example : MathInl.aws_is_power_of_two (2^63) = true ∧ MathInl.aws_is_power_of_two (2^63 + 1) = false ∧
+    MathInl.aws_is_power_of_two 0 = false ∧ MathInl.aws_is_power_of_two 1 = true ∧
+    MathInl.aws_is_power_of_two (2^64 - 1) = false := by decide
+
+/-! ## round up to a power of two (math.inl) — for every 64-bit `n` -/
+
+open AwsVerif.Proofs.C16 in
+/-- the generated function is literally "decrement, six shift-or steps, increment" -/
+theorem round_up_shape (n : Nat) :
+    MathInl.aws_round_up_to_power_of_two n =
+      if n = 0 then .ok 1 else if n > 9223372036854775808 then .err 5
+      else .ok ((Bits.smear64 ((n + 18446744073709551616 - 1) % 18446744073709551616) + 1) % 18446744073709551616) := by
+  unfold MathInl.aws_round_up_to_power_of_two Bits.smear64
+  rfl
+
+open AwsVerif.Proofs.C16 in
+/-- above `2^63` the overflow error; otherwise the least power of two `≥ n` (and `1` for `n = 0`) -/
+theorem c16_round_up_to_power_of_two (n : Nat) (hn : n < 2^64) :
+    if n > 2^63 then MathInl.aws_round_up_to_power_of_two n = .err 5
+    else ∃ p, MathInl.aws_round_up_to_power_of_two n = .ok p ∧ (∃ e, p = 2^e) ∧ n ≤ p ∧ (n = 0 → p = 1) ∧
+      ∀ k, n ≤ 2^k → p ≤ 2^k := by
+  rw [round_up_shape]
+  by_cases h0 : n = 0
+  · subst h0
+    rw [if_neg (by decide), if_pos rfl]
+    exact ⟨1, rfl, ⟨0, rfl⟩, by omega, fun _ => rfl, fun k _ => Nat.one_le_two_pow⟩
+  · by_cases hbig : n > 2^63
+    · have hbig' : n > 9223372036854775808 := by omega
+      rw [if_pos hbig, if_neg h0, if_pos hbig']
+    · have hbig' : ¬ n > 9223372036854775808 := by omega
+      have hm : (n + 18446744073709551616 - 1) % 18446744073709551616 = n - 1 := by omega
+      obtain ⟨e, he, hle, hmin⟩ := Bits.roundup_core h0 (by omega : n ≤ 2^63)
+      rw [if_neg hbig, if_neg h0, if_neg hbig', hm]
+      exact ⟨_, rfl, ⟨e, he⟩, by rw [he]; exact hle, fun h => absurd h h0, fun k hk => by rw [he]; exact hmin k hk⟩
+
+example : MathInl.aws_round_up_to_power_of_two 0 = .ok 1 ∧ MathInl.aws_round_up_to_power_of_two 1 = .ok 1 ∧
+    MathInl.aws_round_up_to_power_of_two 3 = .ok 4 ∧
+    MathInl.aws_round_up_to_power_of_two (2^32 + 1) = .ok (2^33) ∧
+    MathInl.aws_round_up_to_power_of_two (2^63) = .ok (2^63) ∧
+    MathInl.aws_round_up_to_power_of_two (2^63 + 1) = .err 5 := by decide
+
+/-! ## count leading / trailing zeros — every entry point of both variants, for every input in range
+
+Signed entry points take the two's-complement representation (a negative `int32_t` is an `n ≥ 2^31`,
+whose highest set bit is bit 31, so `clz = 0`). -/
+
+/-- leading zeros of the `w`-bit value `n`: `w` for zero, otherwise `w - 1 - (index of the highest set bit)` -/
+def clzSpec (w n : Nat) : Nat := if n = 0 then w else w - 1 - Nat.log2 n
+
+/-- `r` is the count of trailing zeros of the `w`-bit value `n`: `w` for zero, otherwise the least set bit -/
+def IsCtz (w n r : Nat) : Prop :=
+  if n = 0 then r = w else n.testBit r = true ∧ ∀ j, j < r → n.testBit j = false
+
+open AwsVerif.Proofs.C16 in
+theorem isCtz_unique {w n r s : Nat} (hr : IsCtz w n r) (hs : IsCtz w n s) : r = s := by
+  unfold IsCtz at hr hs
+  by_cases h0 : n = 0
+  · rw [if_pos h0] at hr hs; omega
+  · rw [if_neg h0] at hr hs; exact Bits.lowest_unique hr hs
+
+open AwsVerif.Proofs.C16 in
+theorem c16_clz_builtin32 (n : Nat) (hn : n < 2^32) :
+    Builtin.aws_clz_u32 n = clzSpec 32 n ∧ Builtin.aws_clz_i32 n = clzSpec 32 n := by
+  unfold Builtin.aws_clz_u32 Builtin.aws_clz_i32 clzSpec
+  by_cases h0 : n = 0
+  · simp [h0]
+  · simp only [h0, if_false, Bits.builtin_clz_core (by decide : 32 ≤ 64) hn h0, and_self]
+
+open AwsVerif.Proofs.C16 in
+theorem c16_clz_builtin64 (n : Nat) (hn : n < 2^64) :
+    Builtin.aws_clz_u64 n = clzSpec 64 n ∧ Builtin.aws_clz_i64 n = clzSpec 64 n ∧
+    Builtin.aws_clz_size n = clzSpec 64 n := by
+  unfold Builtin.aws_clz_size Builtin.aws_clz_u64 Builtin.aws_clz_i64 clzSpec
+  by_cases h0 : n = 0
+  · simp [h0]
+  · simp only [h0, if_false, Bits.builtin_clz_core (Nat.le_refl 64) hn h0, and_self]
+
+open AwsVerif.Proofs.C16 in
+/-- fallback: the shift-until-negative loop (fuel 70 suffices: at most 31 iterations) -/
+theorem c16_clz_fallback32 (n : Nat) (hn : n < 2^32) :
+    Fallback.aws_clz_u32 n = clzSpec 32 n ∧ Fallback.aws_clz_i32 n = clzSpec 32 n := by
+  have key : Fallback.aws_clz_i32 n = clzSpec 32 n := by
+    simp only [Fallback.aws_clz_i32, clzSpec]
+    by_cases h0 : n = 0
+    · simp [h0]
+    · have h1 := Nat.log2_self_le h0
+      have h2 : n < 2^(n.log2 + 1) := Nat.lt_log2_self
+      have hl : n.log2 < 32 := Bits.log2_lt_of_lt h0 hn
+      rw [if_neg h0, if_neg h0]
+      split
+      · have : n.log2 = 31 := Bits.log2_of_bounds (by omega) (by omega)
+        omega
+      · rw [Bits.clz_i32_loop 70 n.log2 n 0 h1 h2 (by omega) (by omega) (by omega)]; omega
+  exact ⟨by unfold Fallback.aws_clz_u32; exact key, key⟩
+
+open AwsVerif.Proofs.C16 in
+theorem c16_clz_fallback64 (n : Nat) (hn : n < 2^64) :
+    Fallback.aws_clz_u64 n = clzSpec 64 n ∧ Fallback.aws_clz_i64 n = clzSpec 64 n ∧
+    Fallback.aws_clz_size n = clzSpec 64 n := by
+  have key : Fallback.aws_clz_i64 n = clzSpec 64 n := by
+    simp only [Fallback.aws_clz_i64, clzSpec]
+    by_cases h0 : n = 0
+    · simp [h0]
+    · have h1 := Nat.log2_self_le h0
+      have h2 : n < 2^(n.log2 + 1) := Nat.lt_log2_self
+      have hl : n.log2 < 64 := Bits.log2_lt_of_lt h0 hn
+      rw [if_neg h0, if_neg h0]
+      split
+      · have : n.log2 = 63 := Bits.log2_of_bounds (by omega) (by omega)
+        omega
+      · rw [Bits.clz_i64_loop 70 n.log2 n 0 h1 h2 (by omega) (by omega) (by omega)]; omega
+  have k2 : Fallback.aws_clz_u64 n = clzSpec 64 n := by unfold Fallback.aws_clz_u64; exact key
+  exact ⟨k2, key, by unfold Fallback.aws_clz_size; exact k2⟩
+
+open AwsVerif.Proofs.C16 in
+theorem builtin_ctz_isCtz {w v n : Nat} (hw : w ≤ 64) (hn : n < 2^w) (h0 : n ≠ 0) :
+    IsCtz v n (if CSem.ctz w n < 2147483648 then CSem.ctz w n else CSem.ctz w n + 18446744069414584320) := by
+  unfold IsCtz; rw [if_neg h0]; exact Bits.builtin_ctz_core hw hn h0
+
+open AwsVerif.Proofs.C16 in
+/-- note `aws_ctz_u32` is written with the 64-bit builtin (`__builtin_ctzl`), which is equally right -/
+theorem c16_ctz_builtin32 (n : Nat) (hn : n < 2^32) :
+    IsCtz 32 n (Builtin.aws_ctz_u32 n) ∧ IsCtz 32 n (Builtin.aws_ctz_i32 n) := by
+  unfold Builtin.aws_ctz_u32 Builtin.aws_ctz_i32
+  by_cases h0 : n = 0
+  · simp [h0, IsCtz]
+  · have hn64 : n < 2^64 := by omega
+    simp only [h0, if_false]
+    exact ⟨builtin_ctz_isCtz (Nat.le_refl 64) hn64 h0, builtin_ctz_isCtz (by decide : 32 ≤ 64) hn h0⟩
+
+open AwsVerif.Proofs.C16 in
+theorem c16_ctz_builtin64 (n : Nat) (hn : n < 2^64) :
+    IsCtz 64 n (Builtin.aws_ctz_u64 n) ∧ IsCtz 64 n (Builtin.aws_ctz_i64 n) ∧ IsCtz 64 n (Builtin.aws_ctz_size n) := by
+  unfold Builtin.aws_ctz_size Builtin.aws_ctz_u64 Builtin.aws_ctz_i64
+  by_cases h0 : n = 0
+  · simp [h0, IsCtz]
+  · simp only [h0, if_false]
+    exact ⟨builtin_ctz_isCtz (Nat.le_refl 64) hn h0, builtin_ctz_isCtz (Nat.le_refl 64) hn h0,
+      builtin_ctz_isCtz (Nat.le_refl 64) hn h0⟩
+
+open AwsVerif.Proofs.C16 in
+/-- fallback: the probe-upwards loop (fuel 70 suffices: at most 32 iterations; the loop's own bound of 64 and
+the `1 << idx` with `idx ≥ 32` are never reached because `n ≠ 0`) -/
+theorem c16_ctz_fallback32 (n : Nat) (hn : n < 2^32) :
+    IsCtz 32 n (Fallback.aws_ctz_u32 n) ∧ IsCtz 32 n (Fallback.aws_ctz_i32 n) := by
+  have key : IsCtz 32 n (Fallback.aws_ctz_i32 n) := by
+    simp only [Fallback.aws_ctz_i32, IsCtz]
+    by_cases h0 : n = 0
+    · simp [h0]
+    · rw [if_neg h0, if_neg h0]
+      have hl : n.log2 < 32 := Bits.log2_lt_of_lt h0 hn
+      have hs := Bits.ctz_i32_loop hn 70 0 (by intro j hj; omega)
+        ⟨n.log2, Nat.zero_le _, by omega, Nat.testBit_log2 h0⟩
+      have hlt := Bits.lowest_lt hn hs.1
+      rw [Bits.int_to_size (by omega)]; exact hs
+  exact ⟨by unfold Fallback.aws_ctz_u32; exact key, key⟩
+
+open AwsVerif.Proofs.C16 in
+theorem c16_ctz_fallback64 (n : Nat) (hn : n < 2^64) :
+    IsCtz 64 n (Fallback.aws_ctz_u64 n) ∧ IsCtz 64 n (Fallback.aws_ctz_i64 n) ∧ IsCtz 64 n (Fallback.aws_ctz_size n) := by
+  have key : IsCtz 64 n (Fallback.aws_ctz_i64 n) := by
+    simp only [Fallback.aws_ctz_i64, IsCtz]
+    by_cases h0 : n = 0
+    · simp [h0]
+    · rw [if_neg h0, if_neg h0]
+      have hl : n.log2 < 64 := Bits.log2_lt_of_lt h0 hn
+      exact Bits.ctz_i64_loop hn 70 0 (by intro j hj; omega)
+        ⟨n.log2, Nat.zero_le _, by omega, Nat.testBit_log2 h0⟩
+  have k2 : IsCtz 64 n (Fallback.aws_ctz_u64 n) := by unfold Fallback.aws_ctz_u64; exact key
+  exact ⟨k2, key, by unfold Fallback.aws_ctz_size; exact k2⟩
+
+/-- the count of trailing zeros is below the width for a nonzero value -/
+theorem isCtz_lt {w n r : Nat} (hn : n < 2^w) (h0 : n ≠ 0) (h : IsCtz w n r) : r < w := by
+  unfold IsCtz at h; rw [if_neg h0] at h
+  exact AwsVerif.Proofs.C16.Bits.lowest_lt hn h.1
+
+theorem c16_clz_ctz_variants_agree (n : Nat) :
+    (n < 2^32 →
+      Fallback.aws_clz_u32 n = Builtin.aws_clz_u32 n ∧ Fallback.aws_clz_i32 n = Builtin.aws_clz_i32 n ∧
+      Fallback.aws_ctz_u32 n = Builtin.aws_ctz_u32 n ∧ Fallback.aws_ctz_i32 n = Builtin.aws_ctz_i32 n) ∧
+    (n < 2^64 →
+      Fallback.aws_clz_u64 n = Builtin.aws_clz_u64 n ∧ Fallback.aws_clz_i64 n = Builtin.aws_clz_i64 n ∧
+      Fallback.aws_clz_size n = Builtin.aws_clz_size n ∧
+      Fallback.aws_ctz_u64 n = Builtin.aws_ctz_u64 n ∧ Fallback.aws_ctz_i64 n = Builtin.aws_ctz_i64 n ∧
+      Fallback.aws_ctz_size n = Builtin.aws_ctz_size n) := by
+  constructor
+  · intro hn
+    have a := c16_clz_fallback32 n hn; have b := c16_clz_builtin32 n hn
+    have c := c16_ctz_fallback32 n hn; have d := c16_ctz_builtin32 n hn
+    exact ⟨a.1.trans b.1.symm, a.2.trans b.2.symm, isCtz_unique c.1 d.1, isCtz_unique c.2 d.2⟩
+  · intro hn
+    have a := c16_clz_fallback64 n hn; have b := c16_clz_builtin64 n hn
+    have c := c16_ctz_fallback64 n hn; have d := c16_ctz_builtin64 n hn
+    exact ⟨a.1.trans b.1.symm, a.2.1.trans b.2.1.symm, a.2.2.trans b.2.2.symm,
+      isCtz_unique c.1 d.1, isCtz_unique c.2.1 d.2.1, isCtz_unique c.2.2 d.2.2⟩
+
+example : Fallback.aws_clz_i32 1 = 31 ∧ Fallback.aws_clz_u32 (2^31) = 0 ∧ Fallback.aws_clz_i32 (2^32 - 1) = 0 ∧
+    Fallback.aws_clz_u64 (2^40 + 5) = 23 ∧ Builtin.aws_clz_size 1 = 63 ∧ Builtin.aws_clz_i64 0 = 64 ∧
+    clzSpec 64 (2^40 + 5) = 23 := by decide
+example : Fallback.aws_ctz_i32 (2^31) = 31 ∧ Fallback.aws_ctz_u64 (2^63) = 63 ∧ Fallback.aws_ctz_size 96 = 5 ∧
+    Builtin.aws_ctz_u32 (2^31) = 31 ∧ Builtin.aws_ctz_i64 0 = 64 ∧ IsCtz 64 96 5 := by
+  refine ⟨by decide, by decide, by decide, by decide, by decide, ?_⟩
+  unfold IsCtz; exact ⟨by decide, by decide⟩
+
+/-! ## time conversion with arbitrary positive frequencies (beyond the documented `≤ 10^9`)
+
+`aws_timestamp_convert_u64` computes `sat(sat((t/o)*n) + sat((t%o)*n)/o)`.  The remainder-part product
+`(t%o)*n` is *saturated before the division*, so the result is `min(⌊t*n/o⌋, 2^64-1)` exactly when that product
+fits in 64 bits (always the case for frequencies `≤ 10^9`, theorem `timestamp_convert_u64`), and is too small
+otherwise. -/
+
+theorem sat_eq_min (r : Nat) : saturating 64 r = min (2^64 - 1) r := by
+  unfold saturating; split <;> omega
+
+theorem convert_core_unbounded (t o n : Nat) (ht : t < 2^64) :
+    Overflow.aws_add_u64_saturating (Overflow.aws_mul_u64_saturating (t / o) n)
+      (Overflow.aws_mul_u64_saturating ((t + 18446744073709551616 - ((t / o * o) % 18446744073709551616)) % 18446744073709551616) n / o)
+    = saturating 64 (t / o * n + min (2^64 - 1) (t % o * n) / o) := by
+  have hq : t / o * o ≤ t := Nat.div_mul_le_self t o
+  have hr : (t + 18446744073709551616 - ((t / o * o) % 18446744073709551616)) % 18446744073709551616 = t % o := by
+    have h1 : (t / o * o) % 18446744073709551616 = t / o * o := Nat.mod_eq_of_lt (by omega)
+    have h2 : t % o = t - t / o * o := by
+      have := Nat.div_add_mod t o
+      rw [Nat.mul_comm] at this; omega
+    rw [h1, h2]; omega
+  rw [hr, overflow_add_u64_saturating, overflow_mul_u64_saturating, overflow_mul_u64_saturating,
+    sat_eq_min (t % o * n)]
+  generalize t / o * n = X
+  generalize min (2^64 - 1) (t % o * n) / o = Y
+  by_cases hw : X < 2^64
+  · rw [sat_lt hw]
+  · rw [sat_ge hw]
+    have h1 : ¬ (X + Y < 2^64) := by omega
+    rw [sat_ge h1]
+    by_cases h2 : 2^64 - 1 + Y < 2^64
+    · rw [sat_lt h2]; omega
+    · rw [sat_ge h2]
+
+theorem c16_convert_unbounded (t o n : Nat) (ht : t < 2^64) (ho : 0 < o) (hn : 0 < n) (b : Bool) :
+    Clock.aws_timestamp_convert_u64 t o n b =
+      some (saturating 64 (t / o * n + min (2^64 - 1) (t % o * n) / o), if b then convRemainder t o n else 0) ∧
+    (t % o * n < 2^64 → t / o * n + min (2^64 - 1) (t % o * n) / o = t * n / o) := by
+  have core := convert_core_unbounded t o n ht
+  constructor
+  · unfold Clock.aws_timestamp_convert_u64 convRemainder
+    have hpos : ¬ ¬ (o > 0 ∧ n > 0) := by simp; omega
+    cases b
+    · simp [hpos, core]
+    · simp only [hpos, if_false, if_true]
+      by_cases h1 : n < o
+      · by_cases h2 : o % n = 0
+        · simp [h1, h2, core]
+        · simp [h1, h2, core]
+      · simp [h1, core]
+  · intro hfit
+    have hmin : min (2^64 - 1) (t % o * n) = t % o * n := by omega
+    rw [hmin]
+    have h := Nat.div_add_mod t o
+    have : t * n = o * (t / o * n) + t % o * n := by
+      calc t * n = (o * (t / o) + t % o) * n := by rw [h]
+        _ = o * (t / o * n) + t % o * n := by rw [Nat.add_mul, Nat.mul_assoc]
+    rw [this, Nat.mul_add_div ho]
+
+/-- frequencies up to `2^32` are always exact-or-saturated (the remainder product fits) -/
+theorem c16_convert_u32_frequencies (t o n : Nat) (ht : t < 2^64) (ho : 0 < o) (hn : 0 < n)
+    (ho32 : o ≤ 2^32) (hn32 : n ≤ 2^32) (b : Bool) :
+    Clock.aws_timestamp_convert_u64 t o n b =
+      some (saturating 64 (t * n / o), if b then convRemainder t o n else 0) := by
+  have h := c16_convert_unbounded t o n ht ho hn b
+  have hro : t % o < o := Nat.mod_lt _ ho
+  have hfit : t % o * n < 2^64 := by
+    have h1 : t % o * n ≤ (2^32 - 1) * 2^32 := Nat.mul_le_mul (by omega) hn32
+    have h2 : (2^32 - 1) * 2^32 < 2^64 := by decide
+    omega
+  rw [h.1, h.2 hfit]
+
+/-- outside that range the function under-reports: `(2^63 - 1)` ticks at `2^63` Hz are `2^63 - 1` ticks at
+`2^63` Hz, but the saturated remainder product gives `1` -/
+example : Clock.aws_timestamp_convert_u64 (2^63 - 1) (2^63) (2^63) false = some (1, 0) ∧
+    saturating 64 ((2^63 - 1) * 2^63 / 2^63) = 2^63 - 1 := by decide
+example : Clock.aws_timestamp_convert_u64 (2^64 - 1) (2^32) (2^32 - 1) true = some (2^64 - 2^32 - 1, 0) ∧
+    saturating 64 ((2^64 - 1) * (2^32 - 1) / 2^32) = 2^64 - 2^32 - 1 := by decide
 
 end AwsVerif.Props.C16
